@@ -44,7 +44,7 @@ func c17Source(k int, lv int) map[string]string {
 	}[k]
 	tag += sig
 	typ := "type T struct {\n\tX int\n\tH func() int\n}\n\n"
-	vars := fmt.Sprintf("var Counter int\nvar Base int = %d\nvar Zeroed int = 0\nvar ZeroedF float64 = 0\nvar Inst *T\nvar BM func() int\nvar BM1 func(int) int\nvar BMV func(int, ...int) int\nvar Any any\nvar Sh Shape\nvar Err error\n\ntype Shape interface {\n\tM() int\n}\n\n", 100+k)
+	vars := fmt.Sprintf("var Counter int\nvar Base int = %d\nvar Zeroed int = 0\nvar ZeroedF float64 = 0\nvar Inst *T\nvar BM func() int\nvar BM1 func(int) int\nvar BMV func(int, ...int) int\nvar Any any\nvar Sh Shape\nvar Err error\nvar Reg map[string]int\nvar Names []string\n\ntype Shape interface {\n\tM() int\n}\n\n", 100+k)
 	rest := `func Bump() int {
 	Counter++
 	return Counter
@@ -71,14 +71,29 @@ func SetAny() {
 	Any = "kept"
 	Sh = &T{X: 7}
 	Err = errors.New("e")
+	Reg = map[string]int{}
+	Names = []string{}
 }
 
+// the map and the slice are made but EMPTY: they are kept like any other value of a variable without initialiser
 func ReadAny() int {
 	n := 0
-	if Any != nil && Sh != nil && Err != nil {
+	if Any != nil && Sh != nil && Err != nil && Reg != nil && Names != nil {
 		n = 1
 	}
 	return n
+}
+
+// an instance made after a load shows its fields as before (the type is the same in every version)
+type Pt struct {
+	X, Y int
+}
+
+func Fresh() int {
+	if fmt.Sprint(&Pt{X: 3, Y: 4}) == "&{X:3 Y:4}" {
+		return 1
+	}
+	return 0
 }
 
 // Around: the host function it calls loads a version of this package while this frame is active; afterwards the frame
@@ -121,13 +136,13 @@ func CallMethod1() int { return Inst.M1(4) + Inst.MV(5, 6) - Inst.MV(7) }
 		if (lv/4)%2 == 1 {
 			upath = "lib/u"
 		}
-		return map[string]string{upath + "/u.go": utag, "main/main.go": "package main\n\nimport (\n\t\"errors\"\n\t\"" + upath + "\"\n)\n\n" + vars + typ + mainTag + meth + rest + extra}
+		return map[string]string{upath + "/u.go": utag, "main/main.go": "package main\n\nimport (\n\t\"errors\"\n\t\"fmt\"\n\t\"" + upath + "\"\n)\n\n" + vars + typ + mainTag + meth + rest + extra}
 	case 0:
-		return map[string]string{"main/main.go": "package main\n\nimport \"errors\"\n\n" + vars + typ + tag + meth + rest + extra}
+		return map[string]string{"main/main.go": "package main\n\nimport (\n\t\"errors\"\n\t\"fmt\"\n)\n\n" + vars + typ + tag + meth + rest + extra}
 	case 1: // different declaration order
-		return map[string]string{"main/main.go": "package main\n\nimport \"errors\"\n\n" + rest + extra + "\n" + meth + tag + typ + vars}
+		return map[string]string{"main/main.go": "package main\n\nimport (\n\t\"errors\"\n\t\"fmt\"\n)\n\n" + rest + extra + "\n" + meth + tag + typ + vars}
 	default: // two files
-		return map[string]string{"main/a.go": "package main\n\nimport \"errors\"\n\n" + tag + rest, "main/b.go": "package main\n\n" + vars + typ + meth + extra}
+		return map[string]string{"main/a.go": "package main\n\nimport (\n\t\"errors\"\n\t\"fmt\"\n)\n\n" + tag + rest, "main/b.go": "package main\n\n" + vars + typ + meth + extra}
 	}
 }
 
@@ -198,6 +213,13 @@ func c17Replay(c *Ctx, hist []reloadStep, lv int) {
 				if err == nil && g2 != want {
 					fail(i, fmt.Sprintf("CallSig() returned %d, version %d gives %d", g2, st.Want, want))
 					return
+				}
+				if err == nil {
+					g2, err = call1("main.Fresh")
+					if err == nil && g2 != 1 {
+						fail(i, "an instance created after the load does not show its fields (fmt.Sprint(&Pt{X: 3, Y: 4}))")
+						return
+					}
 				}
 				if err == nil {
 					args := map[int][]goat.Value{1: {goat.Int(1)}, 2: {goat.Int(1), goat.Int(2)}, 3: {goat.Int(1), goat.Int(2), goat.Int(3)}}[st.Want]
